@@ -14,7 +14,9 @@ import (
 	"math/big"
 	"math/bits"
 	"math/rand"
+	"os"
 	"sort"
+	"strconv"
 	"sync"
 
 	"github.com/skycoin/skycoin/src/coin"
@@ -22,6 +24,7 @@ import (
 	"github.com/skycoin/skycoin/src/util/logging"
 	"github.com/skycoin/skycoin/src/util/mathutil"
 
+	"verif/lib/rp"
 	"verif/lib/vf"
 )
 
@@ -477,6 +480,9 @@ func main() {
 	logging.Disable()
 	r := vf.Start("C31", "exploration")
 	c := &checker{r: r}
+	if p := r.ReplayPath(); p != "" {
+		replay(c, p)
+	}
 
 	base := baseLattice()
 	mulLat := withQuotients(base, base, ^uint64(0))
@@ -699,4 +705,39 @@ func main() {
 		"CoinHours intermediates are those of the documented computation: seconds*floor(coins/1e6), seconds*(coins mod 1e6), their sum after dividing the droplet part by 1e6, and hours + sum/3600",
 		"burn factor 0 (division by zero) is outside the property's quantifier and not called",
 		"the statement asks for all values; this run answers only for the lattice and samples counted above")
+}
+
+// replay re-evaluates the single case recorded in a replay file
+func replay(c *checker, path string) {
+	f := rp.Load(path, "C31")
+	l := newLocal()
+	switch f.Attrs["fn"] {
+	case "AddUint64":
+		c.add64(l, f.U64("a"), f.U64("b"))
+	case "MultUint64":
+		c.mult64(l, f.U64("a"), f.U64("b"))
+	case "AddUint32":
+		c.add32(l, uint32(f.U64("a")), uint32(f.U64("b")))
+	case "Uint64ToInt64":
+		c.conv(l, f.U64("a"))
+	case "Int64ToUint64", "IntToUint32":
+		v, err := strconv.ParseInt(f.Attrs["a"], 10, 64)
+		if err != nil {
+			fmt.Fprintln(os.Stderr, "replay:", err)
+			os.Exit(3)
+		}
+		c.conv(l, uint64(v))
+	case "RequiredFee", "RemainingHours":
+		c.feeCheck(l, f.U64("hours"), uint32(f.U64("burn")))
+	case "CoinHours":
+		if f.Attrs["class"] == "before_creation" {
+			c.coinHoursBefore(l, f.U64("head_time"), f.U64("coins"), f.U64("hours"), f.U64("t"))
+		} else {
+			c.coinHours(l, f.U64("head_time"), f.U64("coins"), f.U64("hours"), f.U64("elapsed"))
+		}
+	default:
+		fmt.Fprintf(os.Stderr, "replay: unknown fn %q\n", f.Attrs["fn"])
+		os.Exit(3)
+	}
+	rp.Done("C31", c.r.Violations())
 }
